@@ -108,6 +108,7 @@ func c17Specs(quick bool) []*wSpec {
 			{Prop: "C17", Name: "C17-2w1m-fee100-q", Cfg: two, Init: []string{"mint|0|16"}, Menu: c17Menu, Depth: 3},
 			{Prop: "C17", Name: "C17-pendingmelt-q", Cfg: wworld.Config{FeeA: 0, Wallets: []wworld.WalletCfg{{Default: "a"}}}, Init: []string{"mint|0|16", "melt|0|4|P"}, Menu: c17Menu, Depth: 3},
 			{Prop: "C17", Name: "C17-mintswap-q", Cfg: swapCfg, Init: []string{"mint|0|16", "addmint|0|b"}, Menu: swapMenu, Depth: 2},
+			{Prop: "C17", Name: "C17-crossmint-p2pk-q", Cfg: crossMintCfg, Init: []string{"mint|2|16", "mint|0|8"}, Menu: crossMintP2PKMenu, Depth: 3},
 			{Prop: "C17", Name: "C17-rotated-fee100-q", Cfg: two, Init: []string{"mint|0|7", "rotate|a|100", "mint|0|8"}, Menu: c17RotMenu, Depth: 3},
 		}
 	}
@@ -118,6 +119,7 @@ func c17Specs(quick bool) []*wSpec {
 		{Prop: "C17", Name: "C17-2w1m-fee100", Cfg: two, Init: []string{"mint|0|16"}, Menu: c17Menu, Depth: 4},
 		{Prop: "C17", Name: "C17-3w2m-fee0", Cfg: three(0), Init: []string{"mint|0|16"}, Menu: c17Menu, Depth: 3},
 		{Prop: "C17", Name: "C17-3w2m-fee1000", Cfg: three(1000), Init: []string{"mint|0|16"}, Menu: c17Menu, Depth: 3},
+		{Prop: "C17", Name: "C17-crossmint-p2pk", Cfg: crossMintCfg, Init: []string{"mint|2|16", "mint|0|8"}, Menu: crossMintP2PKMenu, Depth: 4},
 		{Prop: "C17", Name: "C17-rotated-fee100", Cfg: two, Init: []string{"mint|0|7", "rotate|a|100", "mint|0|8"}, Menu: c17RotMenu, Depth: 4},
 		{Prop: "C17", Name: "C17-rotated-fee1000to100", Cfg: wworld.Config{FeeA: 1000, Wallets: []wworld.WalletCfg{{Default: "a"}, {Default: "a"}}}, Init: []string{"mint|0|7", "rotate|a|100", "mint|0|8"}, Menu: c17RotMenu, Depth: 4},
 	}
